@@ -92,6 +92,23 @@ mut("c16-h5-reader-wrong-dtype", "C16", "pybrops/popgen/bvmat/DenseBreedingValue
 mut("c16-bv-csv-scaled", "C16", "pybrops/popgen/bvmat/DenseBreedingValueMatrix.py", "        df = self.to_pandas(", "        unscale = unscale and self.ntaxa != 2\n        df = self.to_pandas(", "to_csv ignores unscale for two-taxon matrices", count=0)
 mut("c16-vmat-pandas-transposed", "C16", "pybrops/model/vmat/DenseTwoWayDHAdditiveGeneticVarianceMatrix.py", "female_data   = df.iloc[:,female_colix  ].to_numpy(dtype = object)\n        male_data     = df.iloc[:,male_colix    ].to_numpy(dtype = object)", "female_data   = df.iloc[:,male_colix  ].to_numpy(dtype = object)\n        male_data     = df.iloc[:,female_colix    ].to_numpy(dtype = object)", "female/male columns exchanged by the reader")
 
+# ---------------------------------------------------------------- C03
+TM = "pybrops/core/mat/DenseTaxaMatrix.py"
+VM = "pybrops/core/mat/DenseVariantMatrix.py"
+mut("c03-select-drops-grp-order", "C03", TM, "            taxa_grp = numpy.take(taxa_grp, indices, axis = 0)\n\n        out = self.__class__(", "            taxa_grp = numpy.take(taxa_grp, numpy.sort(indices), axis = 0)\n\n        out = self.__class__(", "select_taxa takes group labels in sorted index order")
+mut("c03-append-keeps-metadata", "C03", TM, "            self._taxa_grp = numpy.append(self._taxa_grp, taxa_grp, axis = 0)\n\n        # reset metadata\n        self._taxa_grp_len = None", "            self._taxa_grp = numpy.append(self._taxa_grp, taxa_grp, axis = 0)\n\n        # reset metadata\n        pass", "append_taxa keeps stale group lengths")
+mut("c03-revert-reorder-reset", "C03", VM, "        self.vrnt_chrgrp_name = None\n        self.vrnt_chrgrp_stix = None\n        self.vrnt_chrgrp_spix = None\n        self.vrnt_chrgrp_len = None\n\n        # reorder arrays", "        # reorder arrays", "reverts fix 86cf1511 for variants")
+mut("c03-revert-generic-incorp", "C03", "pybrops/core/mat/DenseTraitMatrix.py", "            self.incorp_trait(\n", "            self.incorp(\n", "reverts fix c657b065 for traits")
+mut("c03-revert-scalar-insert", "C03", VM, "        if isinstance(obj, (int, numpy.integer)):\n            obj = [obj]\n        values = numpy.insert(self._mat, obj, values, axis = self.vrnt_axis)", "        values = numpy.insert(self._mat, obj, values, axis = self.vrnt_axis)", "reverts fix f7d18d52 in insert_vrnt")
+mut("c03-revert-square-trait-labels", "C03", "pybrops/core/mat/DenseSquareTaxaTraitMatrix.py", '        kwargs.setdefault("trait", self._trait)\n        return super(DenseSquareTaxaTraitMatrix, self).select_taxa(indices, **kwargs)', '        return super(DenseSquareTaxaTraitMatrix, self).select_taxa(indices, **kwargs)', "reverts fix 648b0439 for select_taxa")
+mut("c03-revert-bv-append", "C03", "pybrops/popgen/bvmat/DenseBreedingValueMatrix.py", "        self._assign_taxa_op_result(self.adjoin_taxa(values, taxa = taxa, taxa_grp = taxa_grp, **kwargs))", "        super(DenseBreedingValueMatrix, self).append_taxa(values, taxa = taxa, taxa_grp = taxa_grp, **kwargs)", "reverts the BV append fix")
+mut("c03-remove-keeps-grp", "C03", TM, "            self._taxa_grp = numpy.delete(self._taxa_grp, obj, axis = 0)", "            self._taxa_grp = numpy.delete(self._taxa_grp, obj, axis = 0) if self.ntaxa != 4 else numpy.delete(self._taxa_grp[::-1], obj, axis = 0)", "remove_taxa deletes from the reversed group array for 4-taxon matrices", count=0)
+mut("c03-vrnt-name-misordered", "C03", VM, "            vrnt_name = numpy.take(vrnt_name, indices, axis = 0)", "            vrnt_name = numpy.take(vrnt_name, indices[::-1] if len(indices) == 3 else indices, axis = 0)", "select_vrnt reverses marker names for 3-element selections", count=0)
+mut("c03-group-metadata-before-sort", "C03", TM, "            uniq = numpy.unique(self._taxa_grp, return_index = True, return_counts = True)", "            uniq = numpy.unique(self._taxa_grp if self.ntaxa != 5 else self._taxa_grp[::-1], return_index = True, return_counts = True)", "group boundaries computed on the reversed labels for 5 taxa")
+mut("c03-square-delete-one-axis", "C03", "pybrops/core/mat/DenseSquareTaxaMatrix.py", "        for axis in self.square_taxa_axes:\n            mat = numpy.delete(mat, obj, axis = axis)", "        for axis in self.square_taxa_axes[:1]:\n            mat = numpy.delete(mat, obj, axis = axis)", "square delete_taxa touches the first taxa axis only", count=0)
+mut("c03-sort-drops-mask", "C03", VM, "            self._vrnt_mask = self._vrnt_mask[indices]      # reorder variant mask array", "            pass", "reorder_vrnt leaves the variant mask in the old order")
+mut("c03-concat-label-order", "C03", TM, "        taxa_ls = [m.taxa for m in mats]", "        taxa_ls = [m.taxa for m in mats][::-1]", "concat_taxa concatenates taxa names in reverse matrix order", count=0)
+
 
 def run_one(m, runs, tier_args=()):
     scratch = "/dev/shm/pybrops-mut-%s-%d" % (m["id"], os.getpid())
